@@ -27,7 +27,8 @@ type Frame struct {
 	prev      *ssa.BasicBlock
 	pc        int
 	visits    map[int]int
-	variants  map[int]*T          // loop index -> variant value at the head
+	variants  map[int][]*T // loop index -> variant at the head
+	heads     map[int]*Env // loop index -> environment at the last visit of the head
 	call      ssa.CallInstruction // call site in the parent frame (inlined frames)
 	site      string              // obligation name prefix for inlined code
 	wrap64    bool
@@ -108,9 +109,13 @@ func (st *State) clone() *State {
 		for k, v := range f.visits {
 			nf.visits[k] = v
 		}
-		nf.variants = make(map[int]*T, len(f.variants))
+		nf.variants = make(map[int][]*T, len(f.variants))
 		for k, v := range f.variants {
 			nf.variants[k] = v
+		}
+		nf.heads = make(map[int]*Env, len(f.heads))
+		for k, v := range f.heads {
+			nf.heads[k] = v
 		}
 		nf.callCount = make(map[string]int, len(f.callCount))
 		for k, v := range f.callCount {
@@ -198,11 +203,12 @@ type Exec struct {
 	errors     []string
 	kinds      map[string]bool // obligation kinds to generate (nil = all)
 	autoAxioms []string
+	effCache   map[string]*FuncContract
 }
 
 func NewExec(ld *Loaded, cs *Contracts) *Exec {
 	x := &Exec{ld: ld, cs: cs, leafCache: map[string][]leaf{}, ghostFields: map[string][]ghostLeaf{}, warnings: map[string]int{},
-		trivial: map[string]int{}, havocCalls: map[string]int{}, inlined: map[string]int{}, stdlibUsed: map[string]int{}, maxPaths: 4000}
+		effCache: map[string]*FuncContract{}, trivial: map[string]int{}, havocCalls: map[string]int{}, inlined: map[string]int{}, stdlibUsed: map[string]int{}, maxPaths: 4000}
 	for _, g := range cs.Ghosts {
 		t := ld.resolveTypeString(g.Pkg, g.Type)
 		if t == nil {
@@ -371,7 +377,10 @@ func (x *Exec) scanWrites(instrs []ssa.Instruction, li *loopInfo, seen map[*ssa.
 				x.stdlibWrites(callee, c, li)
 				continue
 			}
-			if seen[callee] || depth > 6 {
+			if seen[callee] {
+				continue // already accounted for
+			}
+			if depth > 8 {
 				li.keys["*"] = true
 				continue
 			}
@@ -426,6 +435,12 @@ func (x *Exec) scanAddr(a ssa.Value, li *loopInfo) {
 	case *ssa.IndexAddr:
 		if st, ok := v.X.Type().Underlying().(*types.Slice); ok {
 			li.keys["E:"+typeKey(st.Elem())] = true
+		} else if pt, ok := v.X.Type().Underlying().(*types.Pointer); ok {
+			if at, ok := pt.Elem().Underlying().(*types.Array); ok {
+				li.keys["E:"+typeKey(at.Elem())] = true
+			} else {
+				li.keys["*"] = true
+			}
 		} else {
 			li.keys["*"] = true
 		}
@@ -643,7 +658,7 @@ func (x *Exec) safety(st *State, fr *Frame, in ssa.Instruction, what string, goa
 // ---- running a function ----
 
 func (x *Exec) newFrame(f *ssa.Function) *Frame {
-	return &Frame{fn: f, regs: map[ssa.Value]Val{}, cells: map[*ssa.Alloc]*cell{}, visits: map[int]int{}, variants: map[int]*T{}, callCount: map[string]int{}}
+	return &Frame{fn: f, regs: map[ssa.Value]Val{}, cells: map[*ssa.Alloc]*cell{}, visits: map[int]int{}, variants: map[int][]*T{}, heads: map[int]*Env{}, callCount: map[string]int{}}
 }
 
 var cellCtr int
@@ -888,22 +903,28 @@ func (x *Exec) loopHead(st *State, fr *Frame, li *loopInfo) bool {
 			st.assume(t)
 		}
 		if ls.Decreases != nil {
-			v, err := env.evalInt(ls.Decreases.Expr)
+			v, err := env.evalIntList(ls.Decreases.Expr)
 			if err != nil {
 				x.errors = append(x.errors, fmt.Sprintf("%s: decreases: %v", ls.Decreases.Where, err))
 			} else {
 				fr.variants[li.index] = v
 			}
 		}
+		// remember the state at this visit of the head for athead(k, e)
+		snapEnv := x.envFor(st, fr)
+		snapEnv.st = st.snapshot()
+		snapEnv.facts = st
+		snapEnv.isPre = false
+		fr.heads[li.index] = snapEnv
 		x.emitCover(st, fmt.Sprintf("%s/cover:loop%d", x.topKey, li.index))
 		return false
 	}
 	x.checkClauses(st, env, ls.Invariants, "inv-keep", x.topKey, fmt.Sprintf("loop%d", li.index), false)
 	if ls.Decreases != nil {
 		if v0, ok := fr.variants[li.index]; ok {
-			v, err := env.evalInt(ls.Decreases.Expr)
+			v, err := env.evalIntList(ls.Decreases.Expr)
 			if err == nil {
-				x.emit(st, fmt.Sprintf("%s/dec@loop%d", x.topKey, li.index), "dec", And(Ge(v0, IntC(0)), Lt(v, v0)), nil)
+				x.emit(st, fmt.Sprintf("%s/dec@loop%d", x.topKey, li.index), "dec", lexLess(v, v0), nil)
 			}
 		}
 	}
@@ -1000,6 +1021,9 @@ func (x *Exec) havocLoop(st *State, fr *Frame, li *loopInfo) {
 	newAlloc := Fresh("A", SInt)
 	st.assume(Ge(newAlloc, st.alloc))
 	st.alloc = newAlloc
+	if os.Getenv("TWV_DEBUG_LOOP") != "" {
+		fmt.Fprintf(os.Stderr, "loop %d of %s havoc keys: %v\n", li.index, x.topKey, li.keys)
+	}
 	if li.keys["*"] {
 		x.havocAll(st)
 		return
@@ -1098,7 +1122,7 @@ func (x *Exec) envFor(st *State, fr *Frame) *Env {
 		vars[name] = v
 		tys[name] = t
 	}
-	return &Env{x: x, st: st, vars: vars, types: tys, pkg: fr.fn.Pkg.Pkg, old: x.preEnv, facts: st}
+	return &Env{x: x, st: st, vars: vars, types: tys, pkg: fr.fn.Pkg.Pkg, old: x.preEnv, facts: st, heads: fr.heads}
 }
 
 // ---- frame checking ----
@@ -1132,6 +1156,14 @@ func (x *Exec) checkFrame(st *State, fr *Frame, in ssa.Instruction, ref *T, key 
 		case "cell":
 			if strings.HasPrefix(key, "C:") {
 				alts = append(alts, Eq(ref, m.Ref))
+			}
+		case "anyslice":
+			if strings.HasPrefix(key, "E:"+typeKey(m.ElemT)) {
+				return
+			}
+		case "anymap":
+			if key == mapDomKey(m.MapT) || strings.HasPrefix(key, "MV:"+typeKey(m.MapT)) {
+				return
 			}
 		}
 	}
